@@ -340,7 +340,7 @@ func gen(r *rand.Rand, tier string, n int) []any {
 		var in input
 		in.Via = "shim"
 		maxNodes := 12
-		if r.Intn(300) == 0 {
+		if r.Intn(100) == 0 { // the public constructor; endpoint lists are shuffled (unsorted)
 			in.Via, maxNodes = "multi", 3
 		}
 		nn := int(common.Between(r, 2, int64(maxNodes)))
